@@ -170,6 +170,9 @@ def _run(check: PropertyCheck, driver_module: str, tier: str, seed: int, t0: flo
     scenarios: list[tuple[dict, str]] = []
     mc_info = []
     for spec in check.model_runs(tier):
+        if spec.get("tlaps"):            # unbounded proofs (TLAPS) complementing the bounded instances
+            mc_info.append({"tlaps": tlc.run_tlapm(spec["tlaps"])})
+            continue
         res = tlc.run_tlc(spec["module"], spec.get("cfg"), workers=spec.get("workers", 1),
                           constants=spec.get("constants"), coverage=spec.get("coverage", False),
                           timeout=spec.get("timeout", 3600), heap=spec.get("heap", "3g"))
